@@ -4,6 +4,7 @@ import (
 	"bytes"
 	"encoding/hex"
 	"math/big"
+	"strconv"
 	"strings"
 	"testing"
 
@@ -117,7 +118,7 @@ func propC13RoundTrip(t *rapid.T) {
 	c13.Sample("roundtrip:"+label, 2, map[string]string{"entropy": hex.EncodeToString(e), "mnemonic": got, "pass": pass})
 }
 
-func itoa(i int) string { return strings.TrimSpace(strings.Replace(big.NewInt(int64(i)).String(), "+", "", -1)) }
+func itoa(i int) string { return strconv.Itoa(i) }
 
 func propC13IllegalSize(t *rapid.T) {
 	n := rapid.IntRange(0, 48).Draw(t, "n")
